@@ -107,6 +107,7 @@ func checkC04PublicationAs(w *World, r *Report, p *Proto, commit *ssa.Function, 
 type settleState struct {
 	unlocks int
 	cleared bool
+	past    bool // the path entered a block in which both guards are known to have passed (write && rootTxn != nil)
 }
 
 // settleExits runs the settle analysis on fn (whose parameter recvIdx is the transaction) and returns, per exit
@@ -187,7 +188,15 @@ func (p *Proto) settleExits(fn *ssa.Function, recv ssa.Value, depth int) map[ssa
 				states[s] = map[settleState]bool{}
 			}
 			grew := false
+			pastS := false
+			if depth == 0 {
+				wr, live := p.txnGuardFacts(fn, s)
+				pastS = wr && live
+			}
 			for st := range cur {
+				if pastS {
+					st.past = true
+				}
 				if !states[s][st] {
 					states[s][st] = true
 					grew = true
@@ -216,39 +225,28 @@ func checkC04Settle(w *World, r *Report, p *Proto, commit, abort *ssa.Function) 
 			ins = append(ins, in)
 		}
 		sort.Slice(ins, func(i, j int) bool { return instrLess(ins[i], ins[j]) })
+		nSettle, nGuard := 0, 0
 		for _, last := range ins {
-			b := last.Block()
-			wr, live := p.txnGuardFacts(fn, b)
-			guardExit := !(wr && live)
 			var got []string
 			ok := true
 			for st := range exits[last] {
-				got = append(got, fmt.Sprintf("{unlocks:%d cleared:%v}", st.unlocks, st.cleared))
-				if guardExit {
+				got = append(got, fmt.Sprintf("{pastGuards:%v unlocks:%d cleared:%v}", st.past, st.unlocks, st.cleared))
+				if !st.past {
+					nGuard++
 					if st.unlocks != 0 {
 						ok = false
 					}
-				} else if st.unlocks != 1 || !st.cleared {
-					ok = false
+				} else {
+					nSettle++
+					if st.unlocks != 1 || !st.cleared {
+						ok = false
+					}
 				}
 			}
 			sort.Strings(got)
-			kind := "past both guards: exactly one Unlock and rootTxn = nil"
-			if guardExit {
-				kind = "stopped by a guard (read-only or already settled): no Unlock"
-			}
-			ru.Check("exit of "+FuncName(fn), w.InstrPos(last), kind, ok, strings.Join(got, " "))
+			ru.Check("exit of "+FuncName(fn), w.InstrPos(last), "a path past both guards: exactly one Unlock and rootTxn = nil; a path stopped by a guard (read-only or already settled): no Unlock", ok, strings.Join(got, " "))
 		}
-		// at least one settling exit and one guard exit must exist
-		nSettle, nGuard := 0, 0
-		for _, last := range ins {
-			wr, live := p.txnGuardFacts(fn, last.Block())
-			if wr && live {
-				nSettle++
-			} else {
-				nGuard++
-			}
-		}
+		// at least one settling path and one guarded path must exist
 		if nSettle < 1 || nGuard < 1 {
 			ru.Fail("exits of "+FuncName(fn), w.Pos(fn.Pos()), "a guarded early exit and a settling exit", fmt.Sprintf("%d guard exit(s), %d settling exit(s)", nGuard, nSettle))
 		}
@@ -341,7 +339,7 @@ func checkC04Managed(w *World, r *Report, p *Proto) { checkC04ManagedAs(w, r, p,
 // checkC04ManagedAs is rule C04.3; C15 repeats it as C15.3 ("the writer lock is released after a panic").
 func checkC04ManagedAs(w *World, r *Report, p *Proto, id string) {
 	ru := r.Rule(id, "every transaction opened for writing (or with a non-constant mode) by a function that does not hand it to its caller is aborted on every exit, panics included: a defer whose body calls Abort on all its paths is registered immediately after opening, with nothing in between that can panic", 3)
-	ru.Idiom("defer txn.Abort()", "defer func(){ if p := recover(); p != nil { txn.Abort(); panic(p) }; txn.Abort() }()")
+	ru.Idiom("defer txn.Abort()", "defer func(){ if p := recover(); p != nil { txn.Abort(); panic(p) }; txn.Abort() }()", "defer helper(txn) with a module function that aborts on all its paths")
 	for _, fn := range w.FoxFuncs() {
 		if isTestHelper(w, fn) {
 			continue
@@ -380,6 +378,20 @@ func checkC04ManagedAs(w *World, r *Report, p *Proto, id string) {
 						if obj := calleeObj(d); isMethodNamed(obj, modulePath, "Txn", "Abort") && isTxn(callArgs(d)[0]) {
 							found, why = true, "defer txn.Abort() registered right after opening"
 							break
+						}
+						if callee := d.Call.StaticCallee(); callee != nil && w.InModule(callee) && callee.Blocks != nil && len(d.Call.Args) == len(callee.Params) {
+							// defer helper(txn): a named function deferred directly (recover() is effective there)
+							params := map[ssa.Value]bool{}
+							for k, a := range d.Call.Args {
+								if a == ssa.Value(site) {
+									params[callee.Params[k]] = true
+								}
+							}
+							if len(params) > 0 {
+								okk, how := p.abortsOnAllPaths(callee, func(v ssa.Value) bool { return params[v] })
+								found, why = okk, how
+								break
+							}
 						}
 						if mc, isClosure := d.Call.Value.(*ssa.MakeClosure); isClosure {
 							cf := mc.Fn.(*ssa.Function)
